@@ -54,6 +54,10 @@ def gen_case(rng):
         if not paths:
             return None
         p = rng.choice(paths)
+        if rng.random() < 0.12:
+            # the scalar form `p: !append x` stands for `p: !append [x]` - a string is ONE element, not its characters
+            e = rng.choice([('sc', None, 'abc'), ('sc', None, '7'), ('sc', None, "'x y'"), ('sc', None, 'true')])
+            return dict(kind=kind, base=basedoc, path=list(p), newer=wrap_at(p, ('sc', '!' + kind, e[2])), els=[e])
         return dict(kind=kind, base=basedoc, path=list(p), newer=wrap_at(p, ('seq', '!' + kind, els)), els=els)
     if kind in ('append_missing', 'extend_missing'):
         # a fresh key below an existing mapping (or the root)
